@@ -141,10 +141,10 @@ CHECKS = {
                 "depend only on content and call: any order, repetition, ranges sharing a start or an end), C07_methods_safe (every method "
                 "loads before it gets). Equivalence with the slice parser's model on the same bytes: C07_open_stream + C07_open_equiv "
                 "(opens IFF minimal_parse opens; identical header and header vectors), C07_section_data, C07_typed_views, C07_notes, "
-                "C07_segment_notes, C07_symbol_tables, C07_name_table, C07_by_name (same success, identical content; scoped to "
+                "C07_segment_notes, C07_symbol_tables, C07_symbol_versions, C07_name_table, C07_by_name (same success, identical content; scoped to "
                 "non-compressed sections and absent/non-empty section header tables), C07_dynamic (slice Ok => stream Ok, same bytes). "
                 "Tie + metamorphic oracle: stream vs slice on the same bytes over scripted readers (chunked, Interrupted), random histories.",
-        "note": STD_NOTE + " Not proved as a theorem (tie + metamorphic oracle only): equivalence of symbol_version_table. Environment models: Read::read_exact / Seek contract, HashMap as association list.",
+        "note": STD_NOTE + " Every public ElfStream method is covered by a theorem. Environment models: Read::read_exact / Seek contract, HashMap as association list.",
         "technique": "Coq proof (free-monad refinement: real interpreter vs pure reading, per-method equivalence with the slice model) + differential correspondence + metamorphic stream-vs-slice oracle",
     },
     "C08": {
@@ -152,10 +152,10 @@ CHECKS = {
                 "and every fault schedule: C08_no_panic (incl. the `expect` in get_bytes), C08_alloc_and_read_bound (every buffer allocation "
                 "and every read is <= the stream length whatever the headers claim: the length guard precedes the allocation), C08_io_exact "
                 "(fault-free, the I/O of a call is exactly one seek + one allocation + one read per not-yet-cached range it loads: lazy, "
-                "nothing twice), C08_oversized_is_error (a range past the stream is BadOffset before any I/O). Tie: exact I/O trace of "
+                "nothing twice), C08_oversized_is_error (a range past the stream is BadOffset before any I/O), C08_open_loads + C08_io_from_loads (open_stream asks only for the ident, the header tail, shdr[0] under extended numbering and the two declared tables; all I/O comes from the ranges a method loads). Tie: exact I/O trace of "
                 "implementation vs model; measured: largest single allocation <= 4*len + 8192 with a counting allocator, reads of "
                 "open_stream inside header/shdr[0]/declared tables (independent python oracle), streams claiming up to 2^64-1.",
-        "note": STD_NOTE + " Measured, not modelled: Vec growth of the header vectors and HashMap bucket growth (covered by the allocation bound oracle only). The statement that open reads only the header and the two tables is checked by the I/O-trace tie and the python oracle; the theorem gives it in the form 'exactly the loads of open_prog'.",
+        "note": STD_NOTE + " Measured, not modelled: Vec growth of the header vectors and HashMap bucket growth (covered by the allocation bound oracle only).",
         "technique": "Coq proof (trace invariant by induction over programs) + I/O-trace correspondence + allocation measurement",
     },
     "C17": {
